@@ -16,6 +16,7 @@ func c12Count(res []hotline.Transaction, to hotline.ClientID, ty hotline.TranTyp
 
 func c12Setup(sender string) (*hotline.Server, *hotline.ClientConn, *hotline.ClientConn, *hotline.ClientConn) {
 	srv, _ := hotline.NewServer()
+	srv.Logger = vLogger()
 	cc := vNewClient(srv, sender)
 	b := vNewClient(srv, "bee")
 	c := vNewClient(srv, "cee")
